@@ -584,7 +584,7 @@ bool Instance::configure_tx_txin() {
 
     parse_stack_args(push_del);
     while (!push_del.empty()) {
-        delete push_del.back();
+        free((void*)push_del.back()); // allocated by strdup
         push_del.pop_back();
     }
 
